@@ -8,7 +8,7 @@ from .common import call
 
 PROP = "C17"
 LEVEL = "exploration"
-CASES = {"quick": 160, "thorough": 6000}
+CASES = {"quick": 160, "thorough": 18000}
 SHARDS = {"quick": 8, "thorough": 16}
 TIMEOUT = {"quick": 300, "thorough": 3400}
 ANCHORS = [
@@ -143,7 +143,8 @@ def run_case(ctx, g, rng):
             violation(["C17"], "resolver:frameworks-agree", mech, path=path, flask=got["flask"], fastapi=got["fastapi"], **w0)
         ow = sp.prefix_owner(p)
         pcls = "unknown" if ow is None else "canon" if ow.prefix == p else "syn"
-        feat = ("s" if "/" in ident else "") + ("d" if d in ident else "") + str(len(segs))
+        dpos = "" if d not in ident else "first" if ident.startswith(d) else "last" if ident.endswith(d) else "mid"
+        feat = ("s" if "/" in ident else "") + ("d" + dpos if d in ident else "") + str(len(segs)) + ("x" if ident.count(d) > 1 else "") + f"r{len(recs)}" + ("g" if "registered_while_serving" in w0 else "")
         probe.note_key(f"{'colon' if d == ':' else 'slash'}:{pcls}:{feat}:{got['flask'][0]}/{got['fastapi'][0]}", "/" in ident or d in ident)
         S.counters["wl:requests"] += 2
     S.counters["wl:apps"] += 2
